@@ -42,6 +42,16 @@ prop("C19", True,
      "guarded CFG reachability (enabling-edge deletion) + dominating-condition extraction + provenance over go/ssa",
      "DESIGN.md §2 C19")
 
+prop("C12", True,
+     "Static check of the decision and gating mechanisms for all credential sets/attempt sequences: dominating-condition extraction at every success/failure "
+     "return of the ssh-simulator password callback and the LDAP bind closure (success iff wildcard or exact equality of presented user and password with a configured entry; "
+     "rejection only after the whole list; the callback writes no state so earlier attempts cannot matter), authentication events carry the evaluated user/password and are recorded before the decision, "
+     "LDAP success code only under bindFunc()==true, catch-all stores a non-success code on every not-logged-in path to the reply, FTP dispatcher gate by edge deletion, effectful=>gated over all Command "
+     "implementations (call-graph reach of Driver methods / data sockets), who-may-write Conn.user and Server.login, CheckPasswd's true leaf. Does not decide the SSH library's state machine or reply encodings.",
+     "Trusts golang.org/x/crypto/ssh to call the password callback per attempt and honour its result; LDAP login cell sharing across connections is C03's subject.",
+     "dominating-condition extraction + guarded reachability + who-may-write + registry exhaustiveness over go/ssa",
+     "DESIGN.md §2 C12")
+
 PENDING = {
  "C01": "check not built yet in this revision (design: DESIGN.md §2 C01)",
 }
